@@ -206,19 +206,26 @@ func init() {
 
 	// ---- regexp with interpreted callback ----
 	externals["(*regexp.Regexp).ReplaceAllStringFunc"] = func(fr *frame, args []value) value {
+		x := fr.i.x
 		re := args[0].(native).v.(*regexp.Regexp)
-		s, ok := args[1].(string)
+		cs, ok := x.semiOf(args[1])
 		if !ok {
-			fr.i.x.abandon("regexp.ReplaceAllStringFunc on a symbolic subject")
+			x.abandon("regexp.ReplaceAllStringFunc on a symbolic subject that is not a semi-symbolic string")
 		}
-		return re.ReplaceAllStringFunc(s, func(m string) string {
-			r := call(fr.i, fr, 0, args[2], []value{m})
-			rs, ok := r.(string)
-			if !ok {
-				fr.i.x.abandon("regexp.ReplaceAllStringFunc callback returned a symbolic string")
-			}
-			return rs
-		})
+		var ms [][]int
+		if hasSymChar(cs) {
+			ms = x.reOnSemi(cs, "ReplaceAllStringFunc", func(s string) interface{} { return re.FindAllStringIndex(s, -1) }, sameIntss).([][]int)
+		} else {
+			ms = re.FindAllStringIndex(marked(cs, 0), -1)
+		}
+		var out value = ""
+		from := 0
+		for _, m := range ms {
+			out = x.concat(out, x.semiVal(cs[from:m[0]]))
+			out = x.concat(out, call(fr.i, fr, 0, args[2], []value{x.semiVal(cs[m[0]:m[1]])}))
+			from = m[1]
+		}
+		return x.concat(out, x.semiVal(cs[from:]))
 	}
 
 	// ---- fmt.Sscanf on concrete input with *int / *string targets ----
